@@ -89,7 +89,8 @@ class SortFootnotes(Transform):
         def _sort_key(node: nodes.footnote) -> int:
             if node["names"] and node["names"][0] in ref_order:
                 return ref_order.index(node["names"][0])
-            return 999
+            # unreferenced footnotes come after all referenced ones
+            return len(ref_order)
 
         self.document.autofootnotes.sort(key=_sort_key)
 
